@@ -55,6 +55,8 @@ def gen_history(rng: random.Random) -> dict:
                         'interleave': round(rng.random(), 3) if rng.random() < 0.2 else None})
         elif kind == 'crash-train':
             ops.append({'op': 'train', 'target': target, 'crash': round(rng.random(), 4)})
+            if rng.random() < 0.4:  # not a death: the file-system call fails with an I/O error, the process lives on
+                ops[-1]['error'] = True
         elif kind == 'restart':
             ops.append({'op': 'restart'})
         else:
@@ -223,6 +225,8 @@ class Run:
                 self.box.drop(snap)
                 if res.ok and res.oplog:
                     crash = {'at': min(len(res.oplog) + 1, 1 + int(op['crash'] * (len(res.oplog) + 1))), 'cut': None}
+                    if op.get('error'):
+                        crash.update(at=min(crash['at'], len(res.oplog)), cut=0, error=True)
             child = self.incarnation()
             pause = None
             if crash is None and op.get('interleave') is not None and self.model[target]:
@@ -267,9 +271,15 @@ class Run:
                 self.nstates[target] = res.value['nstates']
                 self.stats['op:train'] += 1
                 return
-            if res.status == 'crashed':
-                self.child = None
-                self.stats['fault:death-during-train'] += 1
+            failed_alive = bool(crash and crash.get('error') and res.status == 'exc')
+            if failed_alive and os.path.exists(self.logfile):
+                os.unlink(self.logfile)  # what the actors logged before the training failed is not judged
+            if res.status == 'crashed' or failed_alive:
+                if failed_alive:
+                    self.stats['fault:io-error-during-train'] += 1  # the process (and its caches) lives on
+                else:
+                    self.child = None
+                    self.stats['fault:death-during-train'] += 1
                 gens = boxmod.Child(self.box.root, OPTABLE, self.seed * 13 + idx, env={'LC_LOG': self.logfile})
                 listing = gens.call('generations', {'project': project, 'release': release})
                 gens.close()
